@@ -9,6 +9,7 @@ from __future__ import annotations
 from typing import TYPE_CHECKING
 
 from stabilize.dag.graph import StageGraphBuilder
+from stabilize.models.stage import SyntheticStageOwner
 from stabilize.stages.builder import get_default_factory
 
 if TYPE_CHECKING:
@@ -21,9 +22,13 @@ class StartStagePlannerMixin:
 
     repository: WorkflowStore
 
-    def _plan_stage(self, stage: StageExecution) -> None:
+    def _plan_stage(self, stage: StageExecution) -> list[StageExecution]:
         """
         Plan the stage - build tasks and before stages.
+
+        Returns the newly built before stages. They are NOT persisted here: the
+        caller stores them in the same transaction as the planned stage, so a
+        crash cannot leave a partial or duplicated set behind.
         """
         # A previous planning of this same stage (it was re-armed by a jump, or is
         # re-planned after a restart) copied ancestor outputs into the context.
@@ -83,19 +88,18 @@ class StartStagePlannerMixin:
             stage.tasks[0].stage_start = True
             stage.tasks[-1].stage_end = True
 
-        # Build before stages
-        graph = StageGraphBuilder.before_stages(stage)
-        builder.before_stages(stage, graph)
-
-        # Save any new synthetic stages
-        for s in graph.build():
-            # If not already in repository, add it
-            # (StageGraphBuilder adds to execution.stages, but we need to persist)
-            # Actually StageGraphBuilder usually just modifies the object graph.
-            # We need to explicitly store new stages.
-            # Assuming graph.build() returns new stages.
-            s.execution = stage.execution  # Ensure backref
-            self.repository.add_stage(s)
+        # Build before stages - once: a re-plan (zombie stage, duplicate
+        # StartStage for a taskless stage) must not add a second set.
+        new_stages: list[StageExecution] = []
+        existing = self.repository.get_synthetic_stages(stage.execution.id, stage.id) or []
+        if not any(s.synthetic_stage_owner == SyntheticStageOwner.STAGE_BEFORE for s in existing if s is not None):
+            graph = StageGraphBuilder.before_stages(stage)
+            builder.before_stages(stage, graph)
+            for s in graph.build():
+                s.execution = stage.execution  # Ensure backref
+                new_stages.append(s)
 
         # Add context flags
         builder.add_context_flags(stage)
+
+        return new_stages
